@@ -75,6 +75,19 @@ def scope_contracts(chk):
                "structural", "proved")
         chk.ob("contract/ScopeLet.add issues reserved names built from mangle(name) by get_anon_var",
                str(new_outer).startswith("_hy_let_a_b_") and str(new_inner).startswith("_hy_let_a_b_") and new_outer != new_inner, "structural", "proved")
+        # every kind of parameter is a local of the function: none is renamed to an enclosing let binding of the same name
+        letp = comp.scope.create(hs.ScopeLet)
+        with letp:
+            for n_ in ("pa", "pb", "pc", "pd", "pe"):
+                letp.add(sx.S(n_))
+            args5 = ast.arguments(posonlyargs=[ast.arg(arg="pa")], args=[ast.arg(arg="pb")], vararg=ast.arg(arg="pc"),
+                                  kwonlyargs=[ast.arg(arg="pd")], kw_defaults=[None], kwarg=ast.arg(arg="pe"), defaults=[])
+            fn5 = comp.scope.create(hs.ScopeFn, args5, False)
+            with fn5:
+                refs = {n_: fn5.access(ast.Name(id=n_, ctx=ast.Load())) for n_ in ("pa", "pb", "pc", "pd", "pe")}
+            renamed = sorted(n_ for n_, node in refs.items() if node.id != n_)
+            chk.ob("contract/ScopeFn: positional-only, ordinary, *args, keyword-only and **kwargs parameters all shadow an enclosing let "
+                   "binding of the same name", not renamed, "structural", "proved", detail=f"renamed to the let variable: {renamed}")
         again = comp.scope.create(hs.ScopeLet)
         with again:
             first = again.add(sx.S("v"))
